@@ -745,6 +745,7 @@ macro_rules! impl_binop_match_arms {
               if (rows,cols) != (rhs_rows,rhs_cols) {
                 return Err(MechError::new(DimensionMismatch { dims: vec![rows, cols, rhs_rows, rhs_cols] }, None).with_compiler_loc());
               }
+              $registrar!([<$lib MDMD>], $target_type, $value_string);
               Ok(Box::new([<$lib MDMD>]{lhs, rhs, out: Ref::new(DMatrix::from_element(rows,cols,$target_type::default()))}))
             },
             // Row Row
